@@ -1691,6 +1691,9 @@ func (c *FuncCtx) callExternal(st *State, key string, fn *types.Func, recv *Val,
 	}
 	con := c.eng.spec.Contracts[key]
 	if con == nil {
+		con = c.eng.synthPure(key, fn)
+	}
+	if con == nil {
 		limitf("%s: call of %s needs an assumed contract", c.eng.posStr(x.Pos()), key)
 	}
 	if fn == nil {
@@ -2012,4 +2015,43 @@ func (c *FuncCtx) stringerTerm(st *State, a *Val) string {
 	uf := "fmtAny_" + sortIdent(a.Sort)
 	c.eng.declareUF(uf, fmt.Sprintf("(declare-fun %s (%s) String)", uf, a.Sort))
 	return app(uf, a.S)
+}
+
+// purePackages: standard-library packages whose package-level functions have
+// no side effects and answer deterministically.  A call of one that has no
+// assumed contract in the contract file is treated as an uninterpreted pure
+// function of its arguments (nothing is known about its result).
+var purePackages = map[string]bool{"strings": true, "strconv": true, "unicode": true, "unicode/utf8": true, "math": true, "path": true, "path/filepath": false, "bytes": true}
+
+func (e *Engine) synthPure(key string, fn *types.Func) *Contract {
+	if fn == nil || fn.Pkg() == nil || !purePackages[fn.Pkg().Path()] {
+		return nil
+	}
+	sig, ok := fn.Type().(*types.Signature)
+	if !ok || sig.Recv() != nil || sig.Results().Len() == 0 {
+		return nil
+	}
+	q := func(p *types.Package) string { return p.Name() }
+	var ps, rs []string
+	for i := 0; i < sig.Params().Len(); i++ {
+		t := sig.Params().At(i).Type()
+		ts := types.TypeString(t, q)
+		if sig.Variadic() && i == sig.Params().Len()-1 {
+			ts = "..." + types.TypeString(t.(*types.Slice).Elem(), q)
+		}
+		ps = append(ps, fmt.Sprintf("a%d %s", i, ts))
+	}
+	for i := 0; i < sig.Results().Len(); i++ {
+		rs = append(rs, fmt.Sprintf("r%d %s", i, types.TypeString(sig.Results().At(i).Type(), q)))
+	}
+	hdr := fmt.Sprintf("func %s(%s) (%s)", key, strings.Join(ps, ", "), strings.Join(rs, ", "))
+	con, err := parseHeader(hdr, 0)
+	if err != nil {
+		return nil
+	}
+	con.Assumed = true
+	con.Pure = true
+	con.Synth = true
+	e.spec.Contracts[key] = con
+	return con
 }
